@@ -1,5 +1,6 @@
 import Uhppote.Gen.BCD
 import Uhppote.Proofs.BCD
+import Uhppote.Gen.Source
 /-! # C12 — BCD coding is exact, total on digit strings and rejects non-decimal nibbles
 
 Property theorems only. `Model.BCD.encode/decode` are the Go loops run with the switch tables
@@ -88,5 +89,14 @@ example : encode genTables [0x31, 0x32, 0x33] = some [0x01, 0x23] := by decide
 example : encode genTables [0x31, 0x41] = none := by decide
 example : decode genTables [0x20, 0x24, 0x12, 0x31] = some [0x32,0x30,0x32,0x34,0x31,0x32,0x33,0x31] := by decide
 example : decode genTables [0x1a] = none := by decide
+
+/-- the BCD functions keep nothing between calls: the package-level variables of the four packages (regenerated) are these ten - the
+    codec's patterns and kind table, the two card-format patterns, the bind-port mutex, `NOTIMEOUT` and three error
+    values - every one of them initialised when its package is loaded. A `sync.Once`, a lazily filled map or a cache
+    would have to appear here. -/
+theorem C12_package_state : Gen.Source.packageVars = ["encoding/UTO311-L0x/UT0311-L0x.go:var re", "encoding/UTO311-L0x/UT0311-L0x.go:var tBool,tByte,tUint16,…",
+    "encoding/UTO311-L0x/UT0311-L0x.go:var vre", "types/card-format.go:var w26", "types/card-format.go:var wAny",
+    "uhppote/UT0311.go:var NOTIMEOUT", "uhppote/UT0311.go:var guard", "uhppote/errors.go:var ErrIncorrectController",
+    "uhppote/errors.go:var ErrInvalidCard", "uhppote/errors.go:var ErrInvalidListenerAddress"] := by decide
 
 end Uhppote.Props.C12
